@@ -168,6 +168,56 @@ func goLeafType(t reflect.Type, path []string) string {
 	return t.String()
 }
 
+// underOptionalValueStruct: some ancestor of the leaf at path is an optional schema node fed by a
+// non-pointer Go struct field.
+func underOptionalValueStruct(schema *parquet.Schema, t reflect.Type, path []string) bool {
+	var n parquet.Node = schema
+	for len(path) > 0 {
+		for t.Kind() == reflect.Ptr {
+			t = t.Elem()
+		}
+		switch {
+		case t.Kind() == reflect.Slice && t.Elem().Kind() != reflect.Uint8:
+			if len(path) >= 2 && path[0] == "list" && path[1] == "element" {
+				n = fieldNamed(fieldNamed(n, "list"), "element")
+				path = path[2:]
+			}
+			t = t.Elem()
+		case t.Kind() == reflect.Struct && t.String() != "time.Time":
+			ft, ok := c03FieldType(t, path[0])
+			if !ok {
+				return false
+			}
+			n = fieldNamed(n, path[0])
+			if n == nil {
+				return false
+			}
+			if n.Optional() && ft.Kind() == reflect.Struct && ft.String() != "time.Time" {
+				return true
+			}
+			t, path = ft, path[1:]
+		default:
+			return false
+		}
+		if n == nil {
+			return false
+		}
+	}
+	return false
+}
+
+func fieldNamed(n parquet.Node, name string) parquet.Node {
+	if n == nil || n.Leaf() {
+		return nil
+	}
+	for _, f := range n.Fields() {
+		if f.Name() == name {
+			return f
+		}
+	}
+	return nil
+}
+
 // colKey: column description for failure keys — repetition pattern of the ancestors, physical
 // type, and the Go leaf type with the logical type when the leaf is not the plain image of its Go
 // type (width tags, time, decimal, uuid, ...), so that defects of different conversions get
@@ -175,6 +225,11 @@ func goLeafType(t reflect.Type, path []string) string {
 func colKey(e *gen.Entry, ci int) string {
 	d := colDesc(e.Schema, ci)
 	path := e.Schema.Columns()[ci]
+	if underOptionalValueStruct(e.Schema, e.Type, path) {
+		// an optional ancestor that is a NON-pointer Go struct (null = the zero struct): a wrapper
+		// of its own on the typed path, so its defects get keys of their own
+		d = strings.Replace(d, ":", "~struct:", 1)
+	}
 	leaf, _ := e.Schema.Lookup(path...)
 	gt := goLeafType(e.Type, path)
 	plain := map[string]string{"BOOLEAN": "bool", "FLOAT": "float32", "DOUBLE": "float64"}
